@@ -1342,12 +1342,20 @@ insert_list:
         return (states) th->state;
     }
 
+#ifdef PHOTON_VERIF
+    // verification hook (C05): called between the release of the run-queue lock and the
+    // context save of a yielding thread; nullptr (the default) leaves the behaviour unchanged
+    extern "C" { void (*photon_verif_c05_yield_window)() = nullptr; }
+#endif
     int thread_yield()
     {
         RunQ rq;
         if_update_now();
         rq.current->error_number = 0;
         auto sw = AtomicRunQ(rq).goto_next();
+#ifdef PHOTON_VERIF
+        if (photon_verif_c05_yield_window) photon_verif_c05_yield_window();
+#endif
         switch_context(sw.from, sw.to);
         return rq.current->error_number;
     }
